@@ -296,6 +296,59 @@ def c10b_or_plain_alt(i1: int, i2: int, use_neg: bool) -> bool:
     return r.bindings["x"] is v["a"] and r.bindings["y"] is v["b"]
 
 
+# ---------------------------------------------------------------- class 15: a NODE pattern shared between an OR alternative and its context
+def _p15(op, x, y):
+    t = op.Neg(x)
+    return op.Add(PI.OrValue([op.Abs(t), op.Abs(op.Relu(y))]), t)
+
+
+P15 = RR.Pattern(_p15)
+
+
+def c15_or_shared_node(i0: int, i1: int, i2: int, i3: int, shared: bool, same_in: bool) -> bool:
+    """Add((Abs(t) | Abs(Relu(y))), t) with t = Neg(x): both alternatives start with Abs (backtracking OR); the node pattern t
+    occurs inside the first alternative and outside the OR, so an instance through the first alternative needs ONE host node for t
+    vp-pre: 0 <= i0 < 5 and 0 <= i1 < 5 and 0 <= i2 < 5 and 0 <= i3 < 5
+    """
+    spec = [("", OPS[i0], ["a"], [], 1), ("", OPS[i1], ["a" if same_in else "b"], [], 1), ("", OPS[i2], ["v0"], [], 1),
+            ("", OPS[i3], ["v2", "v0" if shared else "v1"], [], 1)]
+    m, g, n, v = mk(spec, ["a", "b"], ["v3"])
+    r = P15.match(m, g, n[3])
+    alt1 = OPS[i0] == "Neg" and shared
+    alt2 = OPS[i0] == "Relu" and (not shared) and OPS[i1] == "Neg"
+    expected = OPS[i3] == "Add" and OPS[i2] == "Abs" and (alt1 or alt2)
+    if bool(r) != expected:
+        return False
+    if not r:
+        return True
+    if alt1:
+        return r.bindings["x"] is v["a"]
+    return r.bindings["x"] is v["a" if same_in else "b"] and r.bindings["y"] is v["a"]
+
+
+# ---------------------------------------------------------------- class 16: an OR alternative that succeeds locally but conflicts later
+P16 = RR.Pattern(lambda op, x: op.Add(PI.OrValue([op.Neg(x), x]), x))
+
+
+def c16_or_commit(i0: int, i1: int, sel: int) -> bool:
+    """Add((Neg(x) | x), x): on Add(Neg(a), Neg(a)) the first alternative succeeds locally (x = a) and then conflicts with the
+    second operand; the subgraph is still an instance through the second alternative (x = the Neg output)
+    vp-pre: 0 <= i0 < 5 and 0 <= i1 < 5 and 0 <= sel < 3
+    """
+    second = ["v0", "a", "b"][sel]
+    spec = [("", OPS[i0], ["a"], [], 1), ("", OPS[i1], ["v0", second], [], 1)]
+    m, g, n, v = mk(spec, ["a", "b"], ["v1"])
+    r = P16.match(m, g, n[1])
+    alt1 = OPS[i0] == "Neg" and second == "a"
+    alt2 = second == "v0"
+    expected = OPS[i1] == "Add" and (alt1 or alt2)
+    if bool(r) != expected:
+        return False
+    if not r:
+        return True
+    return r.bindings["x"] is (v["a"] if alt1 else v["v0"])
+
+
 # ---------------------------------------------------------------- class 11: pattern returns ONE output of a two-output node
 def _p11(k):
     def pat(op, x):
@@ -471,5 +524,7 @@ OBLIGATIONS = [
     _ob("c12_commute_const", 300, "constant value: bounded symbolic index into 12 values around the tolerance of 1000.0; op-type index, operand order, commuted or plain pattern symbolic"),
     _ob("c13_optional_attrs", 300, "host leaves symbolic: op-type index, presence of each of three attributes, pattern variant (strict with one / two optional attribute variables, default)"),
     _ob("c14_attr_constants", 300, "pattern constant index (8 constants: int, float, str, ints, floats, strings) x node attribute index (11 typed attributes) x op-type index, all symbolic"),
+    _ob("c16_or_commit", 300, "host leaves symbolic: two op-type indices and which value (the inner node's output / its input / another input) is the root's second operand"),
+    _ob("c15_or_shared_node", 300, "host leaves symbolic: four op-type indices, whether the root's second operand is the node under the first alternative or a sibling, and the sibling's input"),
     _ob("c11_one_of_two_outputs", 300, "host leaves symbolic: op-type indices, which of the two outputs the pattern returns, whether the other output / the inner value is used outside or is a graph output"),
 ]
